@@ -13,7 +13,7 @@ CHECKS['C06'] = {'engine': 'BFS', 'design_ref': 'DESIGN.md 6 C06',
     'text': 'All histories of sides assignments up to the depth bound (a fixpoint is reached) from every basis PSD vector, both data types, every NFFT in the bound; every distinct state is compared with a reference conversion matrix built from the frequency axes.',
     'note': _EX_NOTE}
 CHECKS['C07'] = {'engine': 'BFS', 'design_ref': 'DESIGN.md 6 C07',
-    'technique': 'explicit-state BFS over setter/call/read histories of real estimator objects (full vars() state hashing, depth-bounded) with a fresh-object differential oracle in every distinct state',
+    'technique': 'explicit-state BFS over setter/call/read histories of real estimator objects (full vars() state hashing; depth 3 from fresh and from computed objects in quick, depth 5 in thorough) with a fresh-object differential oracle and a reference model of the attribute store in every distinct state',
     'text': 'All histories up to the depth bound over a 18-24 event menu per class and data type are executed on real objects; every distinct concrete state is probed on a disposable rebuild against a freshly constructed object with the same final attribute values.',
     'note': _EX_NOTE + '; the fresh-object estimate is the oracle (its numerical correctness is decided by the other properties)'}
 CHECKS['C09'] = {'engine': 'EX', 'design_ref': 'DESIGN.md 6 C09',
@@ -29,11 +29,11 @@ CHECKS['C11'] = {'engine': 'EX', 'design_ref': 'DESIGN.md 6 C11',
     'text': 'For every reflection-coefficient vector of the lattice (orders to the bound, families to 16, real and complex) all six conversions, their compositions and round trips, LAR / inverse-sine bijections and LSF round trips are executed and compared with an independent reference.',
     'note': _EX_NOTE}
 CHECKS['C12'] = {'engine': 'EX', 'design_ref': 'DESIGN.md 6 C12',
-    'technique': 'bounded exhaustive enumeration of lattice data x every order against dense normal equations on a double-loop autocorrelation and dense least squares',
+    'technique': 'bounded exhaustive enumeration of lattice data and fixed families (incl. integer PCM, amplitude-scaled, non-contiguous records) x every order against dense normal equations on a double-loop autocorrelation and dense least squares; exhaustive short histories on pyule objects',
     'text': 'Every non-zero lattice sequence of every length in the bound and fixed families to N=200, with every order 1..min(N-1,30): stability, normal equations on the reference biased autocorrelation, least-squares equivalence, lpc and pyule agreement.',
     'note': _EX_NOTE}
 CHECKS['C13'] = {'engine': 'EX', 'design_ref': 'DESIGN.md 6 C13',
-    'technique': 'bounded exhaustive enumeration of lattice data x every order x every criterion; returned reflection coefficients replayed through a reference lattice filter (stage-wise minimiser), exact nesting',
+    'technique': 'bounded exhaustive enumeration of lattice data and fixed families (incl. integer PCM, amplitude-scaled, non-contiguous records) x every order x every criterion; returned reflection coefficients replayed through a reference lattice filter (stage-wise minimiser), nesting; exhaustive criteria histories on pburg objects',
     'text': 'Every lattice sequence of every length in the bound and fixed families to N=200, every order, all six criteria: the returned coefficients are replayed through an independent lattice filter that recomputes each stage optimum; nesting and criterion results are compared bit for bit.',
     'note': _EX_NOTE}
 CHECKS['C14'] = {'engine': 'EX', 'design_ref': 'DESIGN.md 6 C14',
